@@ -1,7 +1,7 @@
 """C02 - each consumer gets every upstream message at most once, in order, unaltered (E1)."""
 
 from mc import explore
-from . import topo
+from . import topo, e2part
 
 BASES = ['fifo', 'asc', 'desc', 'lifo']
 
@@ -31,6 +31,8 @@ def run(rep):
     if not quick:
         core = [s for s in topo.c02_order_family('quick', n)]
         explore.explore(rep, 'order-core-d2', sel(core), 2, ['fifo'], 'checks.oracles:oracle_c02', budget_s=1500)
+
+    e2part.run_e2(rep, 'C02')
 
     rep.set('traces_validated_against_impl', rep.coverage.get('evaluations', 0))
     rep.set('distinct_nontrivial', rep.coverage.get('distinct_outcomes', 0))
